@@ -1,8 +1,8 @@
 use super::{Event, Id, Kind, Pubkey, Tags, Time};
 use crate::error::{Error, InnerError};
 use crate::json::json_parse::*;
-use crate::json::json_unescape;
 use crate::json::put;
+use crate::json::{json_escape, json_unescape};
 use std::fmt;
 use std::ops::{Deref, DerefMut};
 
@@ -418,14 +418,14 @@ impl Filter {
                 for (i, bytes) in tag.enumerate() {
                     if i == 0 {
                         output.extend(b"\"#");
-                        output.extend(bytes);
+                        output = json_escape(bytes, output)?;
                         output.extend(b"\":[");
                     } else {
                         if i > 1 {
                             output.push(b',');
                         }
                         output.push(b'"');
-                        output.extend(bytes);
+                        output = json_escape(bytes, output)?;
                         output.push(b'"');
                     }
                 }
